@@ -261,8 +261,10 @@ func (w WALBatch) replay(fs *fileStore) error {
 			if err != nil && !errors.Is(err, errKeyAlreadyExists) {
 				return err
 			}
-			if err := fs.incrementLastKey(); err != nil {
-				return err
+			// the last key handed out is at least the key of this record (keys
+			// consumed by refused statements leave gaps in the log)
+			if row.cellID > fs.lastKey {
+				fs.lastKey = row.cellID
 			}
 
 		case OpUpdate:
